@@ -188,10 +188,12 @@ CLAIMED = {
         'text': 'PARTIAL.  Deductive proof (Verus) on the verbatim bodies of solve and solve_all of the reporting discipline around the stop flag, with the flag as an oracle: it is read after every search step and before that step\'s result is looked at, '
                 'and a result is used only when the flag was found clear - so an answer or a "no more" computed while the query was being stopped is never reported, and the list of solve_all is a prefix of the answers obtained with the flag clear, '
                 'followed by the time-out message only when the flag was found raised. The timer armed by a call is cancelled on every path out (C22). '
+                'REAL ANSWERS (8.46): every text solve_all returns, except possibly the last, is what format_solution gives for the query with its variables replaced under a computed answer of the query by resolution '
+                '(soundness of the search, C01, carried through replace_variables - arity kept, proved without precondition on the bindings - and format_solution); the last one too unless the flag was found raised after the loop; solve returns "No more." or such a text unless it found the flag raised. '
                 'NOT DECIDED: that the flag is raised only when the limit was exceeded, and that a search finishing well within the limit is never reported as timed out - these involve the timer thread and wall-clock time, which neither verifier models.',
-        'note': 'Half of the statement (timing, the race between cancel_timer and the timer thread) is outside reach and is not claimed. Trusted: heap model (T8), the stubs of start_query_timer / cancel_timer / query_stopped (the latter returns an arbitrary boolean).',
-        'technique': 'contract-based deductive verification (Verus) of extracted real code (reporting discipline, stop flag as an oracle)',
-        'design_ref': 'DESIGN.md 8.32',
+        'note': 'Half of the statement (timing, the race between cancel_timer and the timer thread) is outside reach and is not claimed. Trusted: heap model (T8), the stubs of start_query_timer / cancel_timer / query_stopped (the latter returns an arbitrary boolean); replace_variables as a function of its arguments (T10); not(G) and the cut count as true in the reference relation (they only remove answers) - that not(G) is not answered from a search that was being stopped is the reporting discipline above.',
+        'technique': 'contract-based deductive verification (Verus) of extracted real code (reporting discipline with the stop flag as an oracle; reported texts are formatted computed answers)',
+        'design_ref': 'DESIGN.md 8.32, 8.46',
     },
     'C04': {
         'text': 'PARTIAL.  Deductive proof (Verus) on the verbatim bodies of format_for_print_pred, next_solution_print and next_solution_print_list (unit print) and of next_solution_bip (unit solver): '
